@@ -317,8 +317,9 @@ theorem steps_lineSafe (m : Mode) (c : Cfg) (s : Store) (txn : List Edit) (href 
       · exact not_isLogPath_refName (href e he)
       · exact not_isLogPath_lockPath (href e he)
 
-/-- the reflogs of the initial state are (modelled as) empty files -/
-theorem init_logsWhole {s : Store} (hl : ∀ x ∈ s.loose, isRefName x.1 = true) : LogsWhole s.toFs := by
+/-- if the reflogs of the initial state hold whole lines, the initial state is `LogsWhole` -/
+theorem init_logsWhole {s : Store} (hl : ∀ x ∈ s.loose, isRefName x.1 = true)
+    (hlog : ∀ p, WholeLines (s.logContent p)) : LogsWhole s.toFs := by
   intro p c0 hp hf
   have hfind : s.loose.find? (fun x => decide (x.1 = p)) = none := by
     apply List.find?_eq_none.mpr
@@ -328,14 +329,14 @@ theorem init_logsWhole {s : Store} (hl : ∀ x ∈ s.loose, isRefName x.1 = true
     rw [e', hp] at this; cases this
   have hpk : p ≠ packedPath := by
     intro e; rw [e, not_isLogPath_packed.1] at hp; cases hp
-  have : c0 = [] := by
+  have : c0 = s.logContent p := by
     unfold fileAt Store.toFs at hf
     simp only [hfind, hpk, if_false] at hf
     by_cases h1 : (s.logs.any fun n => decide (logPath n = p)) = true
-    · simp [h1] at hf; exact hf
+    · simp [h1] at hf; exact hf.symm
     · by_cases h2 : s.dirs.contains p = true
       · simp [h1, h2] at hf
       · simp [h1, h2] at hf
-  rw [this]; exact wholeLines_nil
+  rw [this]; exact hlog p
 
 end GixModel.C20
